@@ -69,7 +69,7 @@ pub fn main_entry(hooks: bool) {
             }
             Err(e) => machinery(&e),
         },
-        "compile-tier" => match checks::c02::compile_tier(0) {
+        "compile-tier" => match checks::c02::compile_tier(0, false) {
             Ok(st) => {
                 println!("{} modules, {} violation signatures, {:.1}s", st.states, st.violations.len(), st.wall_s);
                 for v in st.violations {
